@@ -1297,8 +1297,10 @@ def k_unique_float_collision(case, sub, d):
     """unique(x, float): duplicates are replaced by independent uniform draws from [min(x), max(x)] that are never
     checked against each other (the code says so: 'HIGHLY UNLIKELY two numbers will be the same, but possible'); when the
     range holds only a few dozen representable floats the draws collide"""
-    if sub != 'C16.unique_distinct' or (case.get('full') or {}).get('kind') != 'float':
-        return False
+    kind = (case.get('full') or {}).get('kind')
+    if sub not in ('C16.unique_distinct', 'C16.unique_stable') or not (kind == 'float' or (kind == 'none' and not case.get('ints'))):
+        return False        # (full=None with float input takes the same float-draw path; a result with a collision is
+                            #  changed again by a second application)
     xs = [float(v) for v in case.get('x', [])]
     return bool(xs) and (max(xs) - min(xs)) <= 1e-10 * max(1.0, max(abs(v) for v in xs))
 
